@@ -119,7 +119,7 @@ func init() {
 		},
 		Check: func(x *Exec, c *Case) ([]Violation, bool) {
 			n := 4
-			if RaceEnabled {
+			if RaceEnabled || x.HashOn {
 				n = 2
 			}
 			return checkConcurrent("C15", x, c, n)
